@@ -140,7 +140,9 @@ def c09(tier, seed):
         "value graph (all loops have compile-time bounds) and must be identical, output bit by output bit, to the graph "
         "of the Skein 1.3 definition (key schedule with C240 and tweak words, 72/72/80 MIX rounds with the published "
         "rotation constants, word permutation, subkey injection every four rounds, little-endian words). Done for the "
-        "default build (K1, unrolled) and the no_unroll feature (K4); both equal the specification, hence each other.",
+        "default build (K1, unrolled) and the no_unroll feature (K4); both equal the specification, hence each other. "
+        "R9.2 new(key) builds the schedule of with_tweak(key, 0, 0). R10.2 the slice and par-block trait methods act block "
+        "by block exactly as encrypt_block / decrypt_block.",
         trusted_base=["spec/threefish.py", "engine/bv.py laws", "engine/models.py"], coverage_extra={"exhaustive": True})
 
 
@@ -156,7 +158,10 @@ def c10(tier, seed):
     return r.finish(
         "decrypt_block(encrypt_block(b)) and encrypt_block(decrypt_block(b)) are evaluated with the whole subkey array "
         "and the block as free symbols; the result must normalise to the original block bits. 3 sizes x 2 orders x "
-        "{unrolled, no_unroll}.", trusted_base=["engine/bv.py laws", "engine/models.py"], coverage_extra={"exhaustive": True})
+        "{unrolled, no_unroll}. R10.2: the slice and par-block methods of BlockEncrypt / BlockDecrypt (encrypt_blocks, "
+        "decrypt_blocks, encrypt_par_blocks, decrypt_par_blocks), interpreted from whatever code provides them (the "
+        "trait's provided methods or an override), act on each block exactly as the single-block methods, so the inverse "
+        "relation holds through every way the traits run the cipher.", trusted_base=["engine/bv.py laws", "engine/models.py"], coverage_extra={"exhaustive": True})
 
 
 from . import check_chacha
@@ -354,7 +359,12 @@ def c04(tier, seed):
         "compression function as an uninterpreted symbol on both sides, for EVERY buffer position 0..63 / 0..127 of all "
         "four variants on symbolic buffered bytes, chaining value and counter: the sequence of (block, counter) pairs fed "
         "to the compression function and the truncated big-endian output equal the specified padding (0x80, marker bit, "
-        "64/128-bit length, one vs. two blocks, zero counter for padding-only blocks).",
+        "64/128-bit length, one vs. two blocks, zero counter for padding-only blocks). R4.7 update feeds exactly the "
+        "complete blocks with the double-word counter. R4.6 END TO END: Default -> update(chunk)* -> finalize_into_dirty "
+        "through the real MIR without any hook (dispatch arms joined) on symbolic message bytes for lengths around 0..3 "
+        "blocks in several chunkings, and after an in-place finalisation of the empty message followed by reset, equals the "
+        "specified BLAKE hash. Overflow assertions are accepted only if they guard the format limit (decided by evaluating "
+        "the assertion with the top bits of the high counter word clear, boundary values included).",
         trusted_base=["spec/blake.py", "engine/models.py", "engine/bv.py"], coverage_extra={"exhaustive": True})
 
 
